@@ -367,7 +367,11 @@ Definition root (g : game) (st : sstate) (depth : nat) : outcome (option Move * 
           | Done r =>
               let ne := mkEntry (r_bscore r) (r_best r) (Z.of_nat depth) Exact in
               let st' := r_st r in
-              (Done (r_best r, r_bscore r, false), with_tbl st' (store_root (s_tbl st') (g_hash g) ne))
+              (Done (r_best r, r_bscore r, false),
+               match r_best r with
+               | Some _ => with_tbl st' (store_root (s_tbl st') (g_hash g) ne)
+               | None => st'        (* a root without legal moves is not cached *)
+               end)
           | Aborted sa => (Aborted sa, sa)
           | OutOfFuel => (OutOfFuel, st)
           end
